@@ -459,10 +459,16 @@ func (e *Engine) execInstr(st *State, b *ssa.BasicBlock, idx int, in ssa.Instruc
 	case *ssa.If:
 		c := e.reg(st, x.Cond)
 		if c.T == "true" {
+			if e.reachProbesFor(fr.fn) {
+				e.addReach(st, fmt.Sprintf("%s.reach.b%d.then", e.oblPrefix(fr.fn), b.Index))
+			}
 			e.execBlock(st, b.Succs[0], b)
 			return false
 		}
 		if c.T == "false" {
+			if e.reachProbesFor(fr.fn) {
+				e.addReach(st, fmt.Sprintf("%s.reach.b%d.else", e.oblPrefix(fr.fn), b.Index))
+			}
 			e.execBlock(st, b.Succs[1], b)
 			return false
 		}
